@@ -5,7 +5,7 @@ ID = 'C02'
 COQ_TARGETS = ['Props/Properties_C02.vo']
 PROPS_FILES = ['Props/Properties_C02.v']
 THEOREMS = ['C02_message', 'C02_submission_additions', 'C02_submission_constants', 'C02_submission_full_refuted', 'C02_submission_partial',
-            'C02_message_checker_sound', 'C02_envelope', 'C02_trace_received', 'C02_trace_spf_none']
+            'C02_handoff_message', 'C02_message_checker_sound', 'C02_envelope', 'C02_trace_received', 'C02_trace_spf_none']
 ENGINES = [ENGINE]
 RULE = ('sessions with one to three accepted transactions whose data exercise the copy loops: bodies of arbitrary octets 1..255 except bare CR/LF, '
         'lines of 0, 1, 997..999 octets, lines that are dots only or start with one to three dots, empty header, empty body, no separator line, '
